@@ -241,9 +241,9 @@ impl Family for C02 {
                     let mut t = s.clone();
                     *t.backend.plan_mut().unwrap() = FaultPlan::none();
                     out.push(t);
-                    for at in shrink_list(&p.at) {
+                    for np in p.shrink(16) {
                         let mut t = s.clone();
-                        t.backend.plan_mut().unwrap().at = at;
+                        *t.backend.plan_mut().unwrap() = np;
                         out.push(t);
                     }
                 }
